@@ -12,7 +12,7 @@ import (
 
 var verifWrapTexts = []string{
 	"", "a", "ab cd", "abc def gh", "a-b c", "ab\ncd", "ab \n cd", "abcdefgh", "a  b", " ab", "ab ",
-	"世界 ab", "ab世界cd", "é éx", "a b c d e f", "ab\n\ncd", "abcd ef", "x\n",
+	"世界 ab", "ab世界cd", "é éx", "a b c d e f", "ab\n\ncd", "abcd ef", "x\n", "a foo\n\nbar", "x foo\n bar", "a b\n\nc", "ab c\n\n\nd",
 }
 
 // verifWrapAlphabet: letters, a space, a hyphen, a newline, a wide and a combining grapheme.
